@@ -8,7 +8,7 @@ THEOREMS = ["lifecycle_prefix", "one_claim", "grants_agree", "settlement_exact_a
             "incremental_root_eq_rebuilt", "coordinator_root_eq_rebuilt"]
 PRE = ("From Coq Require Import List NArith.\nFrom Echo Require Import Base.Bytes Model.ExtAct.\n"
        "Import ListNotations.\nOpen Scope N_scope.\n")
-FAULT = {"n": "NoFault", "a": "FailAppend", "f": "FailFlush", "s": "FailAfterSync"}
+FAULT = {"n": "NoFault", "a": "FailAppend", "f": "FailFlush", "s": "FailAfterSync", "t": "FailTorn"}
 FIELD = {"worldline": "FWorldline", "op": "FOp", "inschema": "FInSchema", "setschema": "FSetSchema", "scope": "FScope",
          "basis": "FBasis", "maxbytes": "FMaxBytes", "maxattempts": "FMaxAttempts", "input": "FInput", "recon": "FRecon"}
 CMUT = {"attempt": "MAttempt", "adapter": "MAdapter", "basis": "MBasis", "schema": "MSchema", "digest": "MDigest",
@@ -212,7 +212,7 @@ class Sim:
 
     def __init__(self):
         self.reqs, self.auths, self.tokens, self.grants, self.cands = [], [], [], [], []
-        self.sys = {t: dict(ready=True, dirty=False, index={}, durable={}) for t in "ab"}
+        self.sys = {t: dict(ready=True, dirty=False, torn=False, index={}, durable={}) for t in "ab"}
         self.uid = 0
 
     def new(self, o):
@@ -246,6 +246,9 @@ class Sim:
         st = self.sys[s]
         if f == "a":
             st["ready"] = False
+            return False
+        if f == "t":
+            st["ready"] = False; st["torn"] = True
             return False
         if f == "f":
             st["ready"] = False; st["dirty"] = True
@@ -341,11 +344,12 @@ class Sim:
 
     def recover(self, o):
         st = self.sys[o[1]]
-        if not st["dirty"]:
+        if not st["dirty"] and not st["torn"]:
             st["index"] = dict(st["durable"]); st["ready"] = True
 
     def trunc(self, o):
         self.sys[o[1]]["dirty"] = False
+        self.sys[o[1]]["torn"] = False
 
     def apply(self, o):
         k = o[0]
@@ -377,7 +381,7 @@ def gen_case(rng, tier, store=None, nops=None, fault_rate=0.12):
     if rng.random() < 0.35:
         emit(("new", 1, OP, 2, 3, SCOPE, 4, rng.choice([0, MAXB + 1, 5, 5]), rng.choice([0, 2, 1, 1]), 5, 6))
     n = nops or rng.randint(8, 28 if tier == "quick" else 40)
-    fault = lambda: rng.choice("afs") if rng.random() < fault_rate else "n"
+    fault = lambda: rng.choice("afst" if store == "fs" else "afs") if rng.random() < fault_rate else "n"
     S = lambda: "b" if rng.random() < 0.15 else "a"
     live = lambda pool: [i for i, x in enumerate(pool) if x is not None]
     def advance():
@@ -428,7 +432,7 @@ def gen_case(rng, tier, store=None, nops=None, fault_rate=0.12):
             for t in "ab":
                 st = sim.sys[t]
                 if not st["ready"] and rng.random() < 0.7:
-                    if st["dirty"] and rng.random() < 0.85:
+                    if (st["dirty"] or st["torn"]) and rng.random() < 0.85:
                         emit(("trunc", t))
                     emit(("recover", t))
             continue
@@ -506,7 +510,7 @@ def gen_case(rng, tier, store=None, nops=None, fault_rate=0.12):
         for t in "ab":
             st = sim.sys[t]
             if not st["ready"] and rng.random() < 0.7:
-                if st["dirty"] and rng.random() < 0.85:
+                if (st["dirty"] or st["torn"]) and rng.random() < 0.85:
                     emit(("trunc", t))
                 emit(("recover", t))
     return render_case(store, ops)
@@ -524,7 +528,9 @@ def happy_path(store, nreq, faults=()):
         f = faults[i % len(faults)] if faults else "n"
         ops.append(("req", "a", i, f))
         if f != "n":
-            if f == "f":
+            if f == "t":
+                ops.append(("recover", "a"))   # obstructed: torn tail
+            if f in "ft":
                 ops.append(("trunc", "a"))
             ops.append(("recover", "a"))
             if f != "s":
@@ -670,10 +676,10 @@ def run(tier, seed, replay=None):
         cases = [d["replay"]["case"]] if "case" in d.get("replay", {}) else []
     else:
         cases = vf.load_corpus(PROP)
-        cases += [happy_path("mem", 2), happy_path("fs", 2), happy_path("mem", 3, "afs"), happy_path("fs", 3, "afs")]
+        cases += [happy_path("mem", 2), happy_path("fs", 2), happy_path("mem", 3, "afs"), happy_path("fs", 4, "afst")]
         if tier == "thorough":
             cases += exhaustive("mem", 2)   # every sequence of <= 2 abstract actions also goes through the model
-        n = 28 if tier == "quick" else 600
+        n = 28 if tier == "quick" else 300
         n = int(os.environ.get("VERIF_C17_CASES", n))   # experiments with planted bugs only
         for i in range(n):
             cases.append(gen_case(r.rng, tier, fault_rate=0.25 if i % 4 == 1 else 0.1))
@@ -737,7 +743,7 @@ def run(tier, seed, replay=None):
             r.is_broken("search-run", e)
         r.phase("P6_search", cases=len(extra))
     # evidence
-    hist, opk, faults, stores = {}, {}, {"n": 0, "a": 0, "f": 0, "s": 0}, {}
+    hist, opk, faults, stores = {}, {}, {"n": 0, "a": 0, "f": 0, "s": 0, "t": 0}, {}
     nontriv = 0
     for c, l in zip(cases, impl):
         store, ops = parse_case(c)
@@ -775,3 +781,30 @@ def run(tier, seed, replay=None):
     r.phase("P4_correspondence", cases=len(cases), differing=len(bad))
     r.phase("P5_oracle", failing=sum(1 for o in oracle if o != "ok"))
     return r.finish()
+
+MANIFEST = {
+    "category": "proof",
+    "text": ("Coq theorems (no axioms) over an executable model of ExternalActionCoordinatorV1 (every guard of request/claim/"
+             "settlement/retry/reconstruction in code order, append_transaction against a store with an append/flush/after-sync/"
+             "torn-tail fault oracle, observe_external_actions + recover with the frontier check, the 256-level sparse Merkle "
+             "index generic in depth), proved by induction over ARBITRARY operation sequences (valid and invalid arguments, "
+             "faults, crashes, truncations): the committed lifecycle of every request id is a prefix of requested/claimed/"
+             "settled; at most one claim grant per id and all grants for an id agree; a settlement is logged only for the exact "
+             "claimed attempt within the declared bounds; every authority returned is backed by a committed record (append-only "
+             "log); faults yield no grant and no index change; recover(store) equals the live coordinator whenever it is usable "
+             "and the committed log is always recoverable to the live index plus at most the one ack-lost transaction; retries "
+             "return the retained settlement and append nothing; the incrementally maintained Merkle root equals the root rebuilt "
+             "from the entries.  Tie: the model is executed with a Gallina BLAKE3 and compared bit for bit (ids, attempt ids, "
+             "roots, index dump, typed error) with the real coordinator over the in-memory and filesystem WAL stores on random "
+             "interleavings over two stores; after every operation the harness re-recovers from the store, checks grants against "
+             "the log, the lifecycle prefix, one-claim, crash points at every frame and torn byte offsets of the transaction just "
+             "written, and resumes like a restarted host after a torn tail."),
+    "note": ("Trusted: Coq kernel + vm_compute (primitive Uint63 only in the executable BLAKE3 instance, not in any theorem); "
+             "python generator/renderer props/c17.py; harness c17.rs (abstraction coordinator/store -> canonical line; a commit "
+             "digest is represented by the ordinal of its commit marker in its store); blake3 crate on the implementation side. "
+             "Modelled rather than verified: external_action.rs as Gallina functions; WAL framing, LSN/previous-digest chain, "
+             "payload decode direction, writer epochs and the adapter layer (external_action_adapter.rs, "
+             "validated_workspace_patch.rs) are outside the model; the adapter layer is not exercised.  Found and fixed while "
+             "building: FilesystemWalStore::read_snapshot dropped the torn-tail flag (repo commit d38671b); the oracle keeps the "
+             "signature oracle:acknowledged-step-lost-after-torn-tail as a regression guard."),
+}
